@@ -13,6 +13,18 @@ CHECKS = {
                 text="every history over the alphabet, of any length, conforms to the key->item map (closure of the reachable state space), on both SDK adapters",
                 note="bounded alphabet (2-3 keys, fixed payloads); trusted: reference model; reflective state hash used only for de-duplication",
                 ref="DESIGN.md 3/C01"),
+    "C03": dict(engine="E1", technique=E1,
+                text="every history of index-affecting writes over the alphabet (closure) keeps every secondary index equal to the sparse view of the base table, on both SDK adapters and three index configurations",
+                note="bounded alphabet (2-3 keys, two index key values, GSI hash / GSI hash+range / LSI); trusted: reference model",
+                ref="DESIGN.md 3/C03"),
+    "C05": dict(engine="E1", technique=E1,
+                text="in every reachable combination of target and bystander items, every conditional Put/Update/Delete of the menu succeeds iff the reference evaluation of the condition on the target item is true, and a refused write changes nothing observable",
+                note="bounded alphabet (2-3 keys, 6-8 conditions); ReturnValuesOnConditionCheckFailure only exercised through SDK v2 (the v1 request type has no such field)",
+                ref="DESIGN.md 3/C05"),
+    "C08": dict(engine="E1", technique=E1,
+                text="in every reachable state, every request of the failing-request menu that the implementation rejects leaves the complete observation equal to the unchanged model, and the successor state keeps conforming in all further histories",
+                note="the fault space is the menu of failing request kinds (the library has no other failure source); requests the implementation accepts are outside this property",
+                ref="DESIGN.md 3/C08"),
 }
 
 PENDING = {}
